@@ -4,7 +4,7 @@ from props import c05
 
 
 def knobs(r, i):
-    return {"ops": 20 + r.below(80), "threads": 1 + i % 2, "multi": i % 2 == 0, "unsampled": i % 3 == 0, "late_reporter": i % 7 == 0, "remote_children": i % 2 == 1}
+    return {"ops": 20 + r.below(80), "threads": 1 + i % 2, "multi": i % 2 == 0, "unsampled": i % 3 == 0, "late_reporter": i % 7 == 0, "remote_children": i % 2 == 1, "unwinds": i % 3 == 1}
 
 
 def run(v, tier, seed, replay):
